@@ -605,3 +605,36 @@ func uniq(s []string) []string {
 	}
 	return out
 }
+
+// referenceOwners: f itself if it belongs to the reference inventory (or no
+// inventory is available), else the reference functions that call it,
+// transitively (depth-bounded); f itself again if nothing is found.
+func (c *Ctx) referenceOwners(f *ssa.Function, depth int) []string {
+	f = orig(f)
+	n := fname(f)
+	if baselineFuncs == nil || baselineFuncs[n] || depth <= 0 {
+		return []string{n}
+	}
+	v := c.view
+	c.view = ""
+	callers := c.callersOf(f)
+	c.view = v
+	set := map[string]bool{}
+	for g := range callers {
+		if topFunc(g) == f {
+			continue
+		}
+		for _, o := range c.referenceOwners(topFunc(g), depth-1) {
+			set[o] = true
+		}
+	}
+	if len(set) == 0 {
+		return []string{n}
+	}
+	var out []string
+	for o := range set {
+		out = append(out, o)
+	}
+	sort.Strings(out)
+	return out
+}
